@@ -534,7 +534,7 @@ class VM:
                     elif isinstance(value, JSObject):
                         obj._prototype = value
                 else:
-                    obj.set(key_str, value)
+                    obj.define_value(key_str, value)
             self.stack.append(obj)
 
         elif op == OpCode.BUILD_REGEX:
@@ -779,7 +779,11 @@ class VM:
             found = False
             current = obj
             while isinstance(current, JSObject):
-                if current.has(key_str):
+                if (
+                    current.has(key_str)
+                    or key_str in current._getters
+                    or key_str in current._setters
+                ):
                     found = True
                     break
                 current = current._prototype
@@ -1243,19 +1247,19 @@ class VM:
             return obj._properties.get(key_str, UNDEFINED)
 
         if isinstance(obj, JSObject):
-            # Check for getter first
-            getter = obj.get_getter(key_str)
-            if getter is not None:
-                return self._invoke_getter(getter, obj)
-            # Check own property
-            if obj.has(key_str):
-                return obj.get(key_str)
-            # Check prototype chain
-            proto = getattr(obj, "_prototype", None)
-            while proto is not None:
-                if isinstance(proto, JSObject) and proto.has(key_str):
-                    return proto.get(key_str)
-                proto = getattr(proto, "_prototype", None)
+            # One walk up the chain: the nearest object that defines the key
+            # decides (an own data property shadows an inherited accessor and
+            # the other way round). A getter runs with the receiver as this.
+            holder: Optional[JSObject] = obj
+            while holder is not None:
+                getter = holder._getters.get(key_str)
+                if getter is not None:
+                    return self._invoke_getter(getter, obj)
+                if key_str in holder._setters:
+                    return UNDEFINED  # an accessor without a getter
+                if key_str in holder._properties:
+                    return holder._properties[key_str]
+                holder = holder._prototype
             # Built-in Object methods as fallback
             if key_str in ("toString", "hasOwnProperty"):
                 return self._make_object_method(obj, key_str)
@@ -2530,12 +2534,22 @@ class VM:
                 pass  # Not a number, allow as string property
             obj.set(key_str, value)
         elif isinstance(obj, JSObject):
-            # Check for setter
-            setter = obj.get_setter(key_str)
-            if setter is not None:
-                self._invoke_setter(setter, obj, value)
-            else:
-                obj.set(key_str, value)
+            # The same walk as for reads: the nearest object that defines the
+            # key decides. A setter runs with the receiver as this, an accessor
+            # without a setter ignores the assignment, a data property (own or
+            # inherited) means a plain store on the receiver.
+            holder: Optional[JSObject] = obj
+            while holder is not None:
+                setter = holder._setters.get(key_str)
+                if setter is not None:
+                    self._invoke_setter(setter, obj, value)
+                    return
+                if key_str in holder._getters:
+                    return
+                if key_str in holder._properties:
+                    break
+                holder = holder._prototype
+            obj.set(key_str, value)
         elif isinstance(obj, JSFunction):
             if key_str == "prototype":
                 # The object that instances created with `new` are linked to
